@@ -14,9 +14,9 @@ from harness.common.watchdog import time_limit, Timeout
 ID = "C18"
 MANIFEST = {
     "text": "Lean 4 theorems (Props/C18.lean) over exact rational models of utils.shortest_int and of the quantiser of devices.ADC "
-            "(literals 100, 1e-10, //2, 99.99 translated from the source into Gen/Quant.lean): the returned pair are order "
+            "(literals 100, relative tie tolerance 1e-10, //2, 99.99 translated from the source into Gen/Quant.lean): the returned pair are order "
             "statistics sorted[i], sorted[i+lag] with lag = floor(p*n/100), lo <= hi, the closed interval holds >= lag+1 samples, "
-            "its width exceeds no other lag-pair's width by tol or more (exactly minimal when distinct widths differ by >= tol), "
+            "its width is at most (1+1e-10) times every other lag-pair's width (relative tie tolerance; exactly 0 when some pair has width 0), "
             "success for every 0<=p, lag<n; ADC: length preserved, every code in [0,2^n-1], at most 2^n distinct outputs, outputs "
             "within [V_min,V_max], in-range samples move by at most half a step, out-of-range samples saturate at the end codes "
             "(round-half-even, clipping), for every signal with V_min < V_max. Tie: translator + exact differential run of the "
@@ -30,7 +30,7 @@ MANIFEST = {
 }
 GEN = ["Quant"]
 RULE = ("shortest_int: quantised codes in uint8/uint16/uint32/int8/int16/int32/int64 arrays (unsorted, sorted, descending), Python "
-        "lists and tuples, multisets over small alphabets (heavy ties), dyadic grids finer than the 1e-10 tie tolerance, Gaussian/uniform "
+        "lists and tuples, multisets over small alphabets (heavy ties), dyadic grids whose width differences straddle the relative tie tolerance 1e-10*min, Gaussian/uniform "
         "floats, every lag 0..n-1 via p=(k+1/2)*100/n and boundary percents (dyadic p with n*p/100 integral, 99.99); ADC: exact dyadic "
         "records with power-of-two range (codes compared exactly), Gaussian/uniform/sinusoidal/quantised records of length 2..2^17 "
         "(>= 10^4 so that 99.99% excludes outliers), n in 1..12, both otype values, ndarray and electrical_signal input, containers "
@@ -56,7 +56,15 @@ ASSUMPTIONS = [
 ]
 BUDGET = {"quick": 120, "thorough": 900}
 EXHAUSTIVE = {"quick": False, "thorough": True}
-TIE_TOL = Fraction(1, 10 ** 10)
+TIE_TOL = Fraction(1, 10 ** 10)          # RELATIVE tie tolerance of shortest_int: widths within TIE_TOL*min of the minimum are tied
+
+
+def tie_slack(best, mag):
+    """how far above the minimal width `best` a returned width may lie: the code's relative tie tolerance plus the rounding of
+    the float differences (4 ulp of the data's magnitude); a zero minimal width must be met exactly (x - x = 0 in floats too)"""
+    if best == 0:
+        return Fraction(0)
+    return TIE_TOL * best * (1 + Fraction(1, 10 ** 6)) + Fraction(mag) * Fraction(4, 2 ** 52)
 
 
 def dec_frac(x):
@@ -244,7 +252,7 @@ def gen_cases(rng, tier):
             vals = sorted(rng.sample(range(0, 40), min(40, rng.randint(1, 8))))
             data = [rng.choice(vals) for _ in range(n)]
             data += [vals[0]] * rng.randint(0, 4) + [vals[-1]] * rng.randint(0, 4)
-        elif t < 0.65:    # dyadic grid finer than the tie tolerance 1e-10 (2^-40): near-ties inside the tolerance
+        elif t < 0.65:    # dyadic grid (2^-40): width differences on both sides of the relative tie tolerance 1e-10*min
             base = [rng.randint(0, 6) for _ in range(n)]
             data = [b + rng.randint(0, 300) * 2.0 ** -40 for b in base]
         elif t < 0.8:     # coarse dyadic
@@ -725,6 +733,20 @@ def _finite(*xs):
     return all(isinstance(x, (int, float)) and math.isfinite(x) for x in xs)
 
 
+def _boundary_tie(case):
+    """some lag-pair width differs from the minimum by the tie threshold TIE_TOL*min up to 1e-6 of it (the float product
+    1e-10*dmin and the exact one may then decide differently)"""
+    s_ = sorted(Fraction(float(x)) for x in case["data"])
+    n = len(s_)
+    lag = math.floor(Fraction(n) * dec_frac(case["p"]) / 100)
+    if not 0 <= lag < n:
+        return False
+    w = [s_[j + lag] - s_[j] for j in range(n - lag)]
+    best = min(w)
+    thr = TIE_TOL * best
+    return thr > 0 and any(abs((x - best) - thr) <= thr * Fraction(1, 10 ** 6) for x in w)
+
+
 def compare(case, res, reqs, replies):
     if not reqs:
         return []
@@ -746,6 +768,8 @@ def compare(case, res, reqs, replies):
             return [f"model says {rep[:100]!r}, implementation ({res['lo']!r},{res['hi']!r})"]
         lo, hi = Fraction(t[1]), Fraction(t[2])
         if not _finite(res["lo"], res["hi"]) or lo != Fraction(res["lo"]) or hi != Fraction(res["hi"]):
+            if _finite(res["lo"], res["hi"]) and _boundary_tie(case):
+                return []          # a width sits on the tie threshold 1e-10*dmin itself: float rounding of the product decides
             return [f"model ({float(lo)!r},{float(hi)!r}), implementation ({res['lo']!r},{res['hi']!r})"]
         return []
     # ADC
@@ -824,7 +848,7 @@ def _sint_oracle(data, p, lo, hi, tag):
     lags = {k for k in lag_candidates(n, p) if k < n}
     if not lags:
         return v
-    slack = TIE_TOL + Fraction(max(abs(s[0]), abs(s[-1]), 0.0)) * Fraction(4, 2 ** 52)
+    mag = max(abs(s[0]), abs(s[-1]), 0.0)
     width = Fraction(hi) - Fraction(lo)
     reports = []
     primary = math.floor(Fraction(n) * dec_frac(p) / 100)
@@ -839,7 +863,7 @@ def _sint_oracle(data, p, lo, hi, tag):
                 w.append((f"C18:{tag}:covers", f"[{lo!r},{hi!r}] holds {inside} samples, lag+1 = {lag + 1}"))
             widths = [Fraction(s[j + lag]) - Fraction(s[j]) for j in range(n - lag)]
             best = min(widths)
-            if not width - best < slack:
+            if not width - best <= tie_slack(best, mag):
                 j = widths.index(best)
                 w.append((f"C18:{tag}:minimal", f"width {float(width)!r} but order statistics {j},{j + lag} "
                                                  f"({s[j]!r},{s[j + lag]!r}) are {float(best)!r} apart (n={n}, lag={lag})"))
@@ -860,8 +884,8 @@ def _reference_range(xs):
         return None
     widths = [Fraction(s_[j + lag]) - Fraction(s_[j]) for j in range(n - lag)]
     best = min(widths)
-    slack = TIE_TOL + Fraction(max(abs(s_[0]), abs(s_[-1]))) * Fraction(4, 2 ** 52)
-    cand = [j for j, w in enumerate(widths) if w - best < slack]
+    slack = tie_slack(best, max(abs(s_[0]), abs(s_[-1])))
+    cand = [j for j, w in enumerate(widths) if w - best <= slack]
     if len(cand) != 1:
         return None
     return s_[cand[0]], s_[cand[0] + lag]
@@ -1023,7 +1047,7 @@ def features(case, res):
                     m = min(w)
                     if sum(1 for x in w if x == m) > 1:
                         f.append("sint:tied-minima")
-                    if any(0 < x - m < TIE_TOL for x in w):
+                    if any(0 < x - m <= TIE_TOL * m for x in w):
                         f.append("sint:near-tie-inside-tolerance")
                     break
     else:
